@@ -247,7 +247,11 @@ def run(chk):
         if res.violated:
             log("[C10] WaHeap violates %s in config %s" % (res.violated, c[0]))
             model_violation(chk, b, c, res)
+        log("[C10] %s: TLC %.1fs, %d transitions" % (c[0], res.wall, len(res.lines)))
+        import time as _t
+        t1 = _t.time()
         replay_config(chk, b, c, res)
+        log("[C10] %s: replay %.1fs" % (c[0], _t.time() - t1))
     # ---- exhaustive refinement check at deeper bounds (model only)
     if thorough:
         for c in THOROUGH_MC:
@@ -256,44 +260,50 @@ def run(chk):
             if res.violated:
                 model_violation(chk, b, c, res)
     # ---- V: recorded executions of the real allocator, judged by TLC
-    n = 20000 if thorough else 1500
+    n = 20000 if thorough else 1200
+    ml = 40 if thorough else 16
     vconfs = [
-        ("v-default", 65000, 1, 3, 2, None, 0, 0, "mixed", 40),
-        ("v-class", 4096, 1, 2, 4, None, 0, 0, "class", 30),
+        ("v-default", 65000, 1, 3, 2, None, 0, 0, "mixed", ml),
+        ("v-class", 4096, 1, 2, 4, None, 0, 0, "class", ml),
         ("v-page", 65000, 1, 4, 1, None, 0, 0, "page", 6),
-        ("v-nofixed", 65000, 1, 3, 0, None, 0, 0, "class", 30),
+        ("v-nofixed", 65000, 1, 3, 0, None, 0, 0, "class", ml),
     ]
-    for vc in vconfs:
-        for impl in ("pkg", "runtime"):
-            sd = rng.randrange(1 << 30)
-            out = run_harness(b, "record", vc, impl, None,
-                              extra=["-seed", str(sd), "-n", str(n), "-profile", vc[8], "-maxlive", str(vc[9])])
+    jobs = [(vc, impl, rng.randrange(1 << 30)) for vc in vconfs for impl in ("pkg", "runtime")]
+
+    def vjob(job):
+        vc, impl, sd = job
+        out = run_harness(b, "record", vc, impl, None,
+                          extra=["-seed", str(sd), "-n", str(n), "-profile", vc[8], "-maxlive", str(vc[9])])
+        if not out:
+            raise MachineryError("recorder produced no events")
+        if out[-1].get("hang") or out[-1].get("err"):
+            ev = out[-1]
+            chk.report(key_of("Terminates" if ev.get("hang") else "Trap", ev, vc),
+                       "allocator %s on %s (%s, recorded trace seed %d)" % ("hangs" if ev.get("hang") else "traps", [ev["op"], ev["n"]], impl, sd),
+                       {"config": vc[:5], "impl": impl, "seed": sd, "history": [[e["op"], e["n"]] for e in out]})
+            out = out[:-1]
             if not out:
-                raise MachineryError("recorder produced no events")
-            if out[-1].get("hang") or out[-1].get("err"):
-                ev = out[-1]
-                chk.report(key_of("Terminates" if ev.get("hang") else "Trap", ev, vc),
-                           "allocator %s on %s (%s, recorded trace seed %d)" % ("hangs" if ev.get("hang") else "traps", [ev["op"], ev["n"]], impl, sd),
-                           {"config": vc[:5], "impl": impl, "seed": sd, "history": [[e["op"], e["n"]] for e in out]})
-                out = out[:-1]
-                if not out:
-                    continue
-            chk.add("traces_validated_against_impl", 1)
-            chk.add("recorded_events", len(out))
-            if impl == "pkg":
+                return
+        chk.add("traces_validated_against_impl", 1)
+        chk.add("recorded_events", len(out))
+        if impl == "pkg":
+            with chk.lock:
                 chk.sample({"recorded": vc[0], "seed": sd, "first_events": [[e["op"], e["n"], e["r"]] for e in out[:8]]}, cap=12)
-            ok = judge_observed(chk, vc, out, "recorded trace %s seed %d" % (vc[0], sd), impl)
-            # conformance with the implementation spec (drift detection)
-            text = "\n".join(json.dumps(e) for e in out) + "\n"
-            tr = common.run_tlc("heap", "WaHeapTrace", "t.cfg", workers=1, timeout=1200,
-                                files={"trace.ndjson": text, "t.cfg": tmpl("trace.cfg.in", vc)})
-            if tr.postcond_failed or tr.violated:
-                if ok:
-                    chk.add("model_drift_traces", 1)
+        ok = judge_observed(chk, vc, out, "recorded trace %s seed %d" % (vc[0], sd), impl)
+        # conformance with the implementation spec (drift detection)
+        text = "\n".join(json.dumps(e) for e in out) + "\n"
+        tr = common.run_tlc("heap", "WaHeapTrace", "t.cfg", workers=1, timeout=1200,
+                            files={"trace.ndjson": text, "t.cfg": tmpl("trace.cfg.in", vc)})
+        if tr.postcond_failed or tr.violated:
+            if ok:
+                chk.add("model_drift_traces", 1)
+                with chk.lock:
                     chk.notes.append("model drift: recorded trace %s/%s seed %d leaves WaHeap at event %s but satisfies the contract" % (
                         vc[0], impl, sd, tr.stuck))
-            else:
-                chk.add("recorded_events_conforming_to_impl_spec", len(out))
+        else:
+            chk.add("recorded_events_conforming_to_impl_spec", len(out))
+
+    common.parallel(vjob, jobs, workers=8)
     cov["exhaustive"] = False
     cov["explanation"] = ("states/transitions: TLC totals over the listed bounded configurations of WaHeap (contract "
                           "invariants checked in every state); every emitted transition was executed on both copies of "
